@@ -482,6 +482,9 @@ def run(ctx):
             found_input=False)
     ctx.evaluated(n_eval, n_eval)
 
+    # ---- history: what the modules publish after their functions were used -------------------------
+    state_after_use(ctx)
+
     # ---- evidence ------------------------------------------------------------------------------
     ctx.coverage["exhaustive"] = True
     ctx.coverage["node_histogram"] = dict(sorted(ser.node_hist.items()))
@@ -501,8 +504,85 @@ def run(ctx):
         ctx.sample({"item": entries[i]["name"], "equation": str(entries[i]["eq"]), "verdict": "inhomogeneous"})
 
 
+def state_after_use(ctx):
+    """History dimension of the property: re-judge what every module publishes AFTER its calculate_* functions were
+    exercised (vp/c01_state.py).  quick: every module publishing a mutable container + a seeded sample; thorough: all."""
+    import sys  # pylint: disable=import-outside-toplevel
+    from vp import c01_state  # pylint: disable=import-outside-toplevel
+    mods = sorted(n for n, m in list(sys.modules.items()) if m is not None
+        and n.startswith(tuple(f"symplyphysics.{t}." for t in TOPS)) and not getattr(m, "__file__", "__init__.py").endswith("__init__.py"))
+    mutable = [n for n in mods if c01_state.has_mutable_container(sys.modules[n])]
+    rest = [n for n in mods if n not in mutable]
+    chosen = mutable + (rest if not ctx.quick else sorted(ctx.rng.sample(rest, min(len(rest), 250))))
+    argseed = ctx.seed
+    t0 = __import__("time").time()
+    try:
+        res = c01_state.exercise_modules(chosen, argseed, budget_s=ctx.pick(5, 12), overall_s=ctx.pick(300, 900))
+    except Exception as e:  # pylint: disable=broad-except
+        ctx.violation("C01:state:stage", f"the calls-then-reread stage did not complete: {type(e).__name__}: {e}",
+            {"kind": "broken-tie", "theorem_or_tie": "state_after_use (vp/c01_state.py)"}, found_input=False)
+        return
+    calls = sum(r["calls"] for r in res)
+    outcomes = {}
+    for r in res:
+        for k, v in r["outcomes"].items():
+            outcomes[k] = outcomes.get(k, 0) + v
+    changed = [(r["module"], c) for r in res for c in r["changed"]]
+    lits = [(m, c) for m, c in changed if c["lit"]]
+    coq_bad = set()
+    if lits:
+        pre = dx.Serialiser().preamble()
+        coq_bad = set(coqrun.eval_cases(ctx, "after_calls", pre, [c["lit"] for _, c in lits], "check_rel", case_type="dexpr"))
+    coq_verdict = {id(c): (j not in coq_bad) for j, (_, c) in enumerate(lits)}
+    ctx.coverage["state_after_use"] = {"modules_exercised": len(res), "modules_publishing_mutable_containers": mutable,
+        "functions_called": sum(r["functions"] for r in res), "calls": calls, "call_outcomes": outcomes,
+        "errors": {r["module"]: r["error"] for r in res if r.get("error")},
+        "published_objects_changed": [{"item": f"{short(m)}.{c['item']}", "by": f"{c['function']}({c['variant']})",
+            "after": c["after"], "verdict": c["verdict"]} for m, c in changed][:40],
+        "wall_s": round(__import__("time").time() - t0, 1)}
+    ctx.evaluated(calls, calls)
+    for m, c in changed:
+        name = f"{short(m)}.{c['item']}"
+        call = f"{c['function']}({c['variant']})"
+        rep = {"kind": "violation", "stage": "state", "item": name, "module": m, "published": c["item"], "function": c["function"],
+            "variant": c["variant"], "args_source": c["args"], "argseed": argseed, "arguments": c["arguments"],
+            "call_outcome": c["call_outcome"], "before_srepr": c["before"], "equation_after": c["after"], "observed": c["what"],
+            "expected": "the published equation is unchanged by calls of the module's functions, or at least still homogeneous",
+            "gallina": c["lit"], "theorem_or_tie": "check_rel on the object published after the call"}
+        key = f"C01:{name}@after:{call}"
+        ok_coq = coq_verdict.get(id(c))
+        if c["verdict"] == "bad" and ok_coq is False:
+            ctx.violation(key, f"{name} is no longer dimensionally homogeneous after {short(m)}.{call} with the {c['args']} "
+                f"arguments: now {c['after']} -- {c['what']}", rep, found_input=True)
+        elif c["verdict"] == "ok" and ok_coq is True:
+            continue
+        else:
+            rep["kind"] = "broken-tie"
+            ctx.violation(key + ":unjudged", f"{name} was changed by {call} into {c['after']} and cannot be judged "
+                f"(spec: {c['verdict']} {c['what']}; Coq accepts: {ok_coq})", rep, found_input=False)
+
+
+def replay_state(rep):
+    from vp import c01_state  # pylint: disable=import-outside-toplevel
+    before, out, args, rows = c01_state.replay_call(rep["module"], rep["function"], rep["variant"], rep["argseed"])
+    print("module   :", rep["module"])
+    for k, v in before.items():
+        print("published:", k, "=", v)
+    print(f"call     : {rep['function']}({', '.join(f'{p}={v}' for p, v in args.items())})   [{rep['args_source']} arguments, "
+        f"variant {rep['variant']}]  ->  {out}")
+    bad = 0
+    for k, after, verdict, what in rows:
+        print(f"after    : {k} = {after}   [{verdict}: {what}]")
+        bad += verdict != "ok"
+    if not rows:
+        print("after    : every published object is unchanged")
+    return 1 if bad else 0
+
+
 def replay(ctx, rep):
     """Re-evaluate the recorded item on the live repository."""
+    if rep.get("stage") == "state":
+        return replay_state(rep)
     if "module" not in rep:
         print("replay: this record names a tie / theorem, not an equation:", rep.get("theorem_or_tie"), rep.get("item"))
         return 1
